@@ -42,7 +42,8 @@ type Ctx struct {
 	All     []*packages.Package
 	Tier    string
 	NFuncs  int
-	stage   *Staged // lazily built staged program
+	stage   *Staged     // lazily built staged program
+	norm    *normaliser // helper inlining (inline.go)
 	stageEr error
 }
 
@@ -134,6 +135,7 @@ func loadRepo(repo string) (*Ctx, error) {
 	if len(c.All) == 0 {
 		return nil, fmt.Errorf("no packages of %s loaded from %s", modPath, repo)
 	}
+	normaliseHelpers(c)
 	return c, nil
 }
 
@@ -143,6 +145,12 @@ func (c *Ctx) Pkg(dir string) *packages.Package {
 }
 
 func (c *Ctx) pos(p token.Pos) string {
+	if !p.IsValid() {
+		return "-"
+	}
+	for k := 0; p >= virtualBase && c.norm != nil && k < 8; k++ {
+		p = c.norm.virtualToOrig(p) // a position inside a normalised (helper-inlined) function
+	}
 	if !p.IsValid() {
 		return "-"
 	}
